@@ -1278,15 +1278,19 @@ func (s streamWriter) Close() error {
 
 // Record the stream for a duration
 func (s *Service) doRecordStream(id string, dataSource DataSource, stop time.Time, dbrps []kapacitor.DBRP, measurements []string) error {
-	e, err := s.TaskMaster.NewFork(id, dbrps, measurements)
-	if err != nil {
-		return err
-	}
+	// Open the recording first: a fork that nobody reads blocks the stream for every task once its buffer is full.
 	sw, err := dataSource.StreamWriter()
 	if err != nil {
 		return err
 	}
 	defer sw.Close()
+	// The task master keeps the forks of the tasks and of the recordings in one table, by name.
+	// A recording may be named like a task: its fork gets a name that no task can have.
+	forkName := "recording/" + id
+	e, err := s.TaskMaster.NewFork(forkName, dbrps, measurements)
+	if err != nil {
+		return err
+	}
 
 	done := make(chan struct{})
 	go func() {
@@ -1312,7 +1316,7 @@ func (s *Service) doRecordStream(id string, dataSource DataSource, stop time.Tim
 	}()
 	<-done
 	e.Abort()
-	s.TaskMaster.DelFork(id)
+	s.TaskMaster.DelFork(forkName)
 	return nil
 }
 
